@@ -293,13 +293,14 @@ theorem mentions_unresolved (c : Lut K) (sym : String) (hn : resolve pre c sym =
           | some ent => simp only [ih hin]
     simp only [pureEval, this]
 
-/-- `removed_symbol_unknown_in_every_spelling`: after a guarded history ending in `remove sym`
-    (for the repaired machine: after every such history, see the corollary below), provided
-    `sym` is not re-derivable as a prefixed form of another symbol, every string that parses to
-    an expression mentioning `sym` or prefix + `sym` is refused with `UnitParseError`, and `in`
-    answers `False` for every spelling -/
+/-- `removed_symbol_unknown_in_every_spelling`: after a history ending in `remove sym` whose
+    EDITS pass the guard (`safeRunCore`: `unit_system_id` may be asked anywhere; for the live
+    configuration every history qualifies, see `removed_symbol_unknown_live`), provided `sym` is not
+    re-derivable as a prefixed form of another symbol (`hnd`: e.g. `km` stays derivable from `m` after
+    `remove km`), every string that parses to an expression mentioning `sym` or prefix + `sym` is
+    refused with `UnitParseError`, and `in` answers `False` for every spelling -/
 theorem removed_symbol_unknown_in_every_spelling (t0 : Lut K) (h : List (Op K)) (sym : String)
-    (hs : safeRun cfg pre parse (fresh t0) (h ++ [.remove sym]) = true)
+    (hs : safeRunCore cfg pre parse (fresh t0) (h ++ [.remove sym]) = true)
     (hnd : resolve pre (contents t0 (h ++ [.remove sym])) sym = none) :
     (∀ q ex, parse q = .ok ex → Mentions (contents t0 (h ++ [.remove sym])) sym ex →
       (step cfg pre parse (run cfg pre parse (fresh t0) (h ++ [.remove sym])) (.unit q)).2
@@ -307,17 +308,17 @@ theorem removed_symbol_unknown_in_every_spelling (t0 : Lut K) (h : List (Op K)) 
     (∀ x, Spells (contents t0 (h ++ [.remove sym])) sym x →
       (step cfg pre parse (run cfg pre parse (fresh t0) (h ++ [.remove sym])) (.contains x)).2
         = .bool false) := by
-  have hinv := invariant_on_safe_histories cfg pre parse t0 _ hs
+  have hinv := invariant_core_on_safe_histories cfg pre parse t0 _ hs
   constructor
   · intro q ex hp hm
-    have hsim := step_sim cfg pre parse _ _ hinv (.unit q) rfl
+    have hsim := step_sim_core cfg pre parse _ _ hinv (.unit q) rfl rfl
     rw [fresh_unit, hp] at hsim
     simp only [mentions_unresolved pre _ sym hnd ex hm] at hsim
     generalize (step cfg pre parse (run cfg pre parse (fresh t0) (h ++ [.remove sym])) (.unit q)).2 = o at hsim
     cases o <;> simp only [Out.Sim] at hsim
     rw [hsim]
   · intro x hx
-    have hsim := step_sim cfg pre parse _ _ hinv (.contains x) rfl
+    have hsim := step_sim_core cfg pre parse _ _ hinv (.contains x) rfl rfl
     have hfr : (step cfg pre parse (fresh (contents t0 (h ++ [.remove sym]))) (.contains x)).2
         = .bool false := by
       have g3 := fresh_lookupW pre (contents t0 (h ++ [.remove sym])) x
@@ -333,14 +334,19 @@ theorem removed_symbol_unknown_in_every_spelling (t0 : Lut K) (h : List (Op K)) 
     cases o <;> simp only [Out.Sim] at hsim
     rw [hsim]
 
-/-- for the repaired machine the guard is vacuous -/
-theorem removed_symbol_unknown_repaired (t0 : Lut K) (h : List (Op K)) (sym : String)
-    (hnd : resolve pre (contents t0 (h ++ [.remove sym])) sym = none) (q : String) (ex : PExpr K)
-    (hp : parse q = .ok ex) (hm : Mentions (contents t0 (h ++ [.remove sym])) sym ex) :
-    (step Cfg.repaired pre parse (run Cfg.repaired pre parse (fresh t0) (h ++ [.remove sym])) (.unit q)).2
-      = .err .UnitParseError :=
-  (removed_symbol_unknown_in_every_spelling Cfg.repaired pre parse t0 h sym
-    (safeRun_repaired pre parse _ (fresh t0) rfl) hnd).1 q ex hp hm
+/-- for every machine whose edits invalidate both layers the guard is vacuous: after EVERY history
+    ending in `remove sym` -/
+theorem removed_symbol_unknown_invalidating (hc : cfg.clearCache = true) (hp' : cfg.purgeDerived = true)
+    (t0 : Lut K) (h : List (Op K)) (sym : String)
+    (hnd : resolve pre (contents t0 (h ++ [.remove sym])) sym = none) :
+    (∀ q ex, parse q = .ok ex → Mentions (contents t0 (h ++ [.remove sym])) sym ex →
+      (step cfg pre parse (run cfg pre parse (fresh t0) (h ++ [.remove sym])) (.unit q)).2
+        = .err .UnitParseError) ∧
+    (∀ x, Spells (contents t0 (h ++ [.remove sym])) sym x →
+      (step cfg pre parse (run cfg pre parse (fresh t0) (h ++ [.remove sym])) (.contains x)).2
+        = .bool false) :=
+  removed_symbol_unknown_in_every_spelling cfg pre parse t0 h sym
+    (safeRunCore_invalidating cfg pre parse hc hp' _ (fresh t0)) hnd
 
 end removed
 
@@ -477,11 +483,39 @@ theorem active_cfg_invalidates :
 theorem C12_resolution_full : FullExceptId Generated.registryCfg :=
   refines_fresh_invalidating _ (by decide) (by decide)
 
-/-- the single-step facts the machine's `invalidate` and look-up assume of the live source:
-    `add` / `modify(float)` / `remove` leave the id memo reset, `_lookup_unit_symbol` writes the
-    derived entry back -/
+/-- "removed symbols are unknown in every spelling" for the LIVE configuration, after EVERY history
+    (no guard; `unit_system_id` may have been read at any point): once `remove sym` has run and `sym`
+    is not re-derivable as prefix + another symbol, every string mentioning `sym` or prefix + `sym` is
+    refused and `in` answers `False` -/
+theorem removed_symbol_unknown_live {K : Type} [Mul K] [OfNat K 1] [OfNat K 0] [RPow K]
+    (pre : Prefixes K) (parse : String → Except Err (PExpr K)) (t0 : Lut K) (h : List (Op K))
+    (sym : String) (hnd : resolve pre (contents t0 (h ++ [.remove sym])) sym = none) :
+    (∀ q ex, parse q = .ok ex → Mentions (contents t0 (h ++ [.remove sym])) sym ex →
+      (step Generated.registryCfg pre parse
+        (run Generated.registryCfg pre parse (fresh t0) (h ++ [.remove sym])) (.unit q)).2
+        = .err .UnitParseError) ∧
+    (∀ x, Spells (contents t0 (h ++ [.remove sym])) sym x →
+      (step Generated.registryCfg pre parse
+        (run Generated.registryCfg pre parse (fresh t0) (h ++ [.remove sym])) (.contains x)).2
+        = .bool false) :=
+  removed_symbol_unknown_invalidating Generated.registryCfg pre parse (by decide) (by decide) t0 h sym hnd
+
+/-- the kept finding, as a theorem about the LIVE configuration: including `unit_system_id`, C12 does
+    not hold — the id covers the entries look-ups wrote back (witness: add `foo`, construct `kfoo`,
+    read the id; replayed on the real library every run) -/
+theorem C12_counterexample_live : ¬ C12_full :=
+  not_full_of_id_over_derived Generated.registryCfg (by decide)
+
+/-- the structural facts the machine assumes of the live source, regenerated on every run: every edit
+    form of the probe matrix leaves the id memo reset; `_lookup_unit_symbol` writes the derived entry
+    back; and (`ast`) the invalidations are UNCONDITIONAL — in add / modify / remove the memo reset and
+    the purge are top-level statements before any use of the table, every table write is a top-level
+    statement followed by a top-level cache clear, there is no early exit, `in_base` is followed by a
+    memo reset, the write-back is recorded and every caller passes the registry's set.  An invalidation
+    moved under a condition fails this obligation even when no probe happens to hit the condition -/
 theorem active_step_assumptions :
-    Generated.registryEditsResetMemo = true ∧ Generated.lookupWritesBack = true := by decide
+    Generated.registryEditsResetMemo = true ∧ Generated.lookupWritesBack = true ∧
+    Generated.registryEditsUnconditional = true := by decide
 
 /-! ### non-vacuity: concrete instances meeting the hypotheses -/
 
@@ -507,7 +541,10 @@ open Witness in
     removal, `kfoo` spells it -/
 example : resolve pre (contents t0 ([.add "foo" foo2] ++ [.remove "foo"])) "foo" = none ∧
     splitCandidate "kfoo" = some ("k", "foo") ∧
-    safeRun Cfg.asIs pre parse (fresh t0) ([.add "foo" foo2] ++ [.remove "foo"]) = true := by
+    safeRunCore Cfg.asIs pre parse (fresh t0) ([.add "foo" foo2] ++ [.remove "foo"]) = true ∧
+    -- for the live configuration also after look-ups and id reads that the full guard rejects
+    safeRun Generated.registryCfg pre parse (fresh t0)
+      ([.add "foo" foo2, .unit "kfoo", .sysId] ++ [.remove "foo"]) = false := by
   decide +kernel
 
 open Witness in
